@@ -20,13 +20,13 @@ import (
 // ancestor-or-self, descendant-or-self) a name test keeps it unless it knows which axis it follows. Hence there has
 // to be a piece of state that carries the axis' principal node type from the axis to the name test:
 //
-//  (a) a field F of the evaluation context that the axis handler sets on every path, to one constant on the
-//      attribute arm, another on the namespace arm and a third on all other arms (and the `@` abbreviation sets
-//      the attribute constant, the implicit child axis of a step the element constant);
-//  (b) every way a name-test handler keeps a named node is conditional on a predicate over F and the node;
-//  (c) that predicate, evaluated for every value of F and every node kind, is true exactly for attributes under
-//      the attribute constant, namespaces under the namespace constant, and elements (named, not attribute)
-//      otherwise.
+//	(a) a field F of the evaluation context that the axis handler sets on every path, to one constant on the
+//	    attribute arm, another on the namespace arm and a third on all other arms (and the `@` abbreviation sets
+//	    the attribute constant, the implicit child axis of a step the element constant);
+//	(b) every way a name-test handler keeps a named node is conditional on a predicate over F and the node;
+//	(c) that predicate, evaluated for every value of F and every node kind, is true exactly for attributes under
+//	    the attribute constant, namespaces under the namespace constant, and elements (named, not attribute)
+//	    otherwise.
 func (w *World) checkPrincipalNodeType(P string, f *Facts, r *Roles, ef *ExecFacts) {
 	docRule(P, "R01.14", "T+D+F A<->S", "principal node type: the axis handler stores into a context field, on every path, a constant that is one value on the attribute arm, another on the namespace arm and a third on every other arm (the `@` abbreviation stores the attribute value, the implicit child axis the element value; the context copy carries the field: R01.8); every keep of a named node in a name-test handler is conditional on a predicate of that field and the node, and the predicate is true exactly for attributes / namespace nodes / elements (named and not attribute) under the respective value: `@x/self::*`, `@x/self::x` and `@x/ancestor-or-self::*` do not select the attribute.")
 	at := ef.Axis
